@@ -350,6 +350,23 @@ pub fn route_family() -> Vec<Hello> {
             }
         }
     }
+    // ClientHellos that fill a TLS record up to the largest legal size (2^14 bytes of record payload): a padding extension
+    // sized so that the record length field is 16000, 16379 .. 16384 exactly
+    for target in [16000usize, 16379, 16380, 16381, 16382, 16383, 16384] {
+        let base = vec![pool[0].clone(), pool[1].clone(), Ext::SupVer(vec![0x0304, 0x0303])];
+        let mk = |n: usize| {
+            let mut exts = base.clone();
+            exts.push(Ext::Other(21, vec![0u8; n]));
+            Hello { legacy: 0x0303, ciphers: vec![0x1301, 0xc02f], exts, ..Hello::default() }
+        };
+        let l0 = tls::bytes(&mk(0)).len() - 5;
+        if target >= l0 {
+            let h = mk(target - l0);
+            if tls::bytes(&h).len() - 5 == target {
+                v.push(h);
+            }
+        }
+    }
     v
 }
 
